@@ -306,6 +306,7 @@ func parentMain(chk *Check, tier string, seed int64, replay string) int {
 		nw = len(todo)
 	}
 	merged := NewRec(ctx, "")
+	caseTimes := map[string]float64{}
 	var mu sync.Mutex
 	next := 0
 	take := func() (int, bool) {
@@ -344,6 +345,7 @@ func parentMain(chk *Check, tier string, seed int64, replay string) int {
 						return
 					}
 				}
+				t0 := time.Now()
 				b, _ := json.Marshal(workerReq{Idx: idx})
 				w.stdin.Write(b)
 				w.stdin.WriteByte('\n')
@@ -410,6 +412,7 @@ func parentMain(chk *Check, tier string, seed int64, replay string) int {
 				resp.Rec.caseID = cid
 				races := w.raceReports()
 				mu.Lock()
+				caseTimes[cid] = time.Since(t0).Seconds()
 				merged.Merge(resp.Rec)
 				addRaces(merged, chk, tier, seed, cid, races)
 				mu.Unlock()
@@ -417,6 +420,13 @@ func parentMain(chk *Check, tier string, seed int64, replay string) int {
 		}(wi)
 	}
 	wg.Wait()
+	if os.Getenv("VERIF_TIMES") != "" {
+		ids := SortedKeys(caseTimes)
+		sort.Slice(ids, func(i, j int) bool { return caseTimes[ids[i]] > caseTimes[ids[j]] })
+		for i := 0; i < len(ids) && i < 15; i++ {
+			fmt.Fprintf(os.Stderr, "slow case %-40s %.2fs\n", ids[i], caseTimes[ids[i]])
+		}
+	}
 	if chk.Post != nil && onlyCase == "" {
 		chk.Post(ctx, merged)
 	}
